@@ -657,6 +657,89 @@ def reentrant_purity(ctx, codes, jobs, rng, runs, cls="reentrant_calls", max_poi
         hooks.uninstall()
 
 
+class InjectedFault(BaseException):
+    """Not used as the injected type itself (a library cannot be expected to know it); marks harness-side bookkeeping only."""
+
+
+def fault_injection(ctx, codes, cases, rng, cls="fault_injection", max_points=30, exc_types=(KeyboardInterrupt, MemoryError)):
+    """Source-free failpoints: an exception of a kind any Python code can meet at any line (KeyboardInterrupt from a signal, MemoryError from an
+    allocation) is raised at the k-th line event of `codes` while an operation runs on FRESH objects; afterwards the objects that took
+    part are interrogated.  An interrupted operation is part of an object's history like any other: whatever it left behind, every later
+    operation has to answer as on a fresh object (C19), and a call that does return must return the right value.
+    cases: list of (label, make); make() -> (op, expected_ok, after) where op() performs the operation on objects that make() built afresh,
+    expected_ok(result) -> None or a description, after() -> None or a description of what differs from a fresh object (it may run any
+    number of further operations; no faults are injected while it runs).  Every line event is an injection point (sampled beyond
+    max_points)."""
+    hooks = LineHooks()
+    hooks.install(codes, None)
+    st = {"n": 0, "at": None, "exc": None, "fired": False}
+
+    def cb(code, line):
+        st["n"] += 1
+        if st["n"] == st["at"]:
+            st["fired"] = True
+            raise st["exc"]("injected by the fault monitor at line %d of %s" % (line, code.co_name))
+    hooks.free_running = cb
+    try:
+        for label, make in cases:
+            op, expected_ok, after = make()
+            st.update(n=0, at=None, fired=False)
+            try:
+                op()
+            except Exception:
+                ctx.count(cls + ".operation_fails_without_fault")
+                continue
+            N = st["n"]
+            if N == 0:
+                ctx.count(cls + ".no_line_events")
+                continue
+            pts = list(range(1, N + 1)) if N <= max_points else sorted(rng.sample(range(1, N + 1), max_points))
+            for k in pts:
+                op, expected_ok, after = make()
+                et = exc_types[rng.randrange(len(exc_types))]
+                st.update(n=0, at=k, exc=et, fired=False)
+                outcome = None
+                try:
+                    res = op()
+                    outcome = ("ok", res)
+                except BaseException as e:
+                    if isinstance(e, (ShardStopLike,)):
+                        raise
+                    outcome = ("exc", e)
+                finally:
+                    st["at"] = None
+                if not st["fired"]:
+                    ctx.count(cls + ".injection_point_not_reached")
+                    continue
+                ctx.case(cls, key="%s|%s|%d" % (label, et.__name__, min(k, 40)), nontrivial=True)
+                if outcome[0] == "ok":
+                    ctx.count(cls + ".fault_swallowed_and_result_returned")
+                    bad = expected_ok(outcome[1])
+                    if bad:
+                        ctx.violation("wrong_result_after_swallowed_fault:" + label, "%s: a %s raised at line event %d was swallowed and the call returned a wrong value: %s" % (label, et.__name__, k, bad), dict(case=label, point=k, exc=et.__name__))
+                        continue
+                elif type(outcome[1]) is et:
+                    ctx.count(cls + ".fault_propagated")
+                else:
+                    ctx.count(cls + ".fault_relabelled_as_" + type(outcome[1]).__name__)
+                try:
+                    bad = after()
+                except Exception as e:
+                    bad = "interrogation raised %s: %s" % (type(e).__name__, e)
+                if bad:
+                    ctx.violation("object_damaged_by_interrupted_operation:" + label, "%s interrupted by %s at line event %d of %d: afterwards %s" % (label, et.__name__, k, N, bad), dict(case=label, point=k, of=N, exc=et.__name__))
+    finally:
+        hooks.free_running = None
+        hooks.uninstall()
+
+
+try:
+    from vf.core import ShardStop as ShardStopLike
+except Exception:      # pragma: no cover
+    class ShardStopLike(BaseException):
+        pass
+
+
 class fresh_ecdsa(object):
     """with fresh_ecdsa() as M: a NEW private instance of the whole ecdsa package (all module-level state as on first import:
     lazy tables, memos, generator objects), installed in sys.modules for the duration so that pickling resolves to it."""
